@@ -188,3 +188,6 @@ func IsAppOp(op string) bool {
 	}
 	return false
 }
+
+// RecordLedgerNow records the current committed source state in the ledger (used by mid-operation oracles).
+func (s *Scn) RecordLedgerNow() { s.recordLedger() }
